@@ -49,7 +49,7 @@ type progGen struct {
 
 func newProgGen(r *kernel.RNG) *progGen {
 	g := &progGen{r: r, maxD: r.Range(2, 5)}
-	g.w = make([]int, 39)
+	g.w = make([]int, 42)
 	for i := range g.w {
 		g.w[i] = r.Range(0, 4)
 	}
@@ -113,7 +113,7 @@ func (g *progGen) e(d int) string {
 	if d >= g.maxD {
 		return g.atom()
 	}
-	w := append([]int{}, g.w[:35]...)
+	w := append([]int{}, g.w[:38]...)
 	if len(g.fns) == 0 {
 		w[8], w[10], w[11], w[13] = 0, 0, 0, 0
 	}
@@ -233,6 +233,18 @@ func (g *progGen) e(d int) string {
 		return fmt.Sprintf("(apply + [%s %s])", g.e(d+1), g.e(d+1))
 	case 30:
 		return fmt.Sprintf("(len (append [1] %s))", g.e(d+1))
+	case 35:
+		// range over a hash with a probe in the body
+		return fmt.Sprintf("(let [acc 0] (range k v (hash a: 1 b: 2 c: 3) (set acc (+ acc v %s))) acc)", g.e(d+1))
+	case 36:
+		// go-style range and if/else chain in an infix block
+		return fmt.Sprintf("(let [acc 0 hh (hash a: 1 b: 2)] {for k, v := range hh { if v > 1 { acc = acc + %s } else if v > 5 { acc = 0 } else { acc = acc + 1 } }} acc)", g.infixOperand(d))
+	case 37:
+		// nested macro use: a host macro inside a user macro's argument
+		if len(g.macros) > 0 {
+			return fmt.Sprintf("(%s (hm %s))", g.macros[g.r.Intn(len(g.macros))], g.e(d+1))
+		}
+		return fmt.Sprintf("(hm (hm %s))", g.e(d+1))
 	case 33:
 		// a hash key given as a list is evaluated by the builtin itself (re-entering the VM); with a default value supplied
 		return fmt.Sprintf("(hget (hash a: 1 2: 7) (quote %s) %s)", g.e(d+1), g.e(d+1))
@@ -687,6 +699,12 @@ var declForms = []string{
 	"(for [(def i 0) (< i 3) (def i (+ i 1))] (let [z i] (and (== z 1) (continue) 1)))",
 	"(for [(def i 0) (< i 3) (def i (+ i 1))] (let [z i] (or (< z 1) (break) 1)))",
 	"(defn lt%d [n] (let [m (lt2%d n)] m)) (defn lt2%d [n] (+ n 1)) (lt%d 3)",
+	// return from nested scopes inside a typed func, called positionally and by name
+	"(func fr%d [a:int64] [n:int64] (let [b a] (for [(def i 0) (< i 3) (def i (+ i 1))] (let [c i] (cond (> (+ b c) 1) (return (+ b c)) 0)))) (return 0)) (fr%d 1) (fr%d a:0) (+ 1 (fr%d 5))",
+	"(func fq%d [a:int64 b:int64] [n:int64 m:int64] (newScope (cond (> a b) (return a b) 0)) (return b a)) (fq%d 2 1) (fq%d a:1 b:2)",
+	"(def ia%d 2) (def ib%d 0) { if ia%d > 1 { ib%d = 2 } else if ia%d > 0 { ib%d = 3 } else { ib%d = 4 } } ib%d",
+	"(def rb%d (hash a: 1 b: 2 c: 3)) (def rs%d 0) (range k v rb%d (cond (== v 2) (break) 0) (set rs%d (+ rs%d v))) rs%d",
+	"(def rb%d (hash a: 1 b: 2 c: 3)) (def rs%d 0) {for k, v := range rb%d { if v == 2 { continue }; rs%d = rs%d + v }} rs%d",
 	// a function whose last form is a loop whose body ends in a self-call that really runs (tree walk)
 	"(def vis%d 0) (defn walk%d [n] (for [(def i 0) (< i 2) (def i (+ i 1))] (set vis%d (+ vis%d 1)) (cond (> n 0) (walk%d (- n 1)) 0))) (walk%d 3) vis%d",
 	"(defn wk%d [n] (let [k n] (for [(def i 0) (< i 2) (def i (+ i 1))] (cond (> k 0) (wk%d (- k 1)) 0)))) (wk%d 2)",
